@@ -340,3 +340,660 @@ theorem divUw_zero (w : Nat) (a b : List Nat) (hb0 : val (2 ^ w) b = 0) : divUw 
 
 theorem modUw_zero (w : Nat) (a b : List Nat) (hb0 : val (2 ^ w) b = 0) : modUw w a b = zero a.length := by
   unfold modUw; rw [divModU_zero w a b hb0]
+
+/-! ### signed interpretation: negation, magnitude, comparison -/
+
+theorem neg_length_wf (B : Nat) (hB : 1 < B) (v : List Nat) (hv : Wf B v) :
+    (neg B v).length = v.length ∧ Wf B (neg B v) := by
+  obtain ⟨_, _, _, hlen, hwf⟩ := negc_spec B hB v 1 (by omega) hv
+  exact ⟨hlen, hwf⟩
+
+/-- negation, as a congruence on integers -/
+theorem neg_val_int (B : Nat) (hB : 1 < B) (v : List Nat) (hv : Wf B v) :
+    (val B (neg B v) : Int) = (-(val B v : Int)) % ((B ^ v.length : Nat) : Int) := by
+  have hlt := val_lt B v hv
+  rw [neg_val B hB v hv, Int.natCast_emod, Int.natCast_sub (by omega)]
+  generalize B ^ v.length = M at *
+  have : ((M : Nat) : Int) - (val B v : Int) = -(val B v : Int) + (M : Int) * 1 := by omega
+  rw [this, Int.add_mul_emod_self_left]
+
+theorem toInt_lt_zero (B : Nat) (l : List Nat) (h : Wf B l) (hneg : isNeg B l = true) :
+    toInt B l < 0 := by
+  have hlt := val_lt _ l h
+  rw [toInt_of_neg _ _ hneg]
+  omega
+
+theorem toInt_nonneg (B : Nat) (l : List Nat) (hneg : isNeg B l = false) :
+    0 ≤ toInt B l := by
+  rw [toInt_of_nonneg _ _ hneg]
+  omega
+
+/-- bounds of the two's complement value: `-M/2 ≤ toInt < M/2` -/
+theorem toInt_bounds (w : Nat) (hw : 0 < w) (l : List Nat) (h : Wf (2 ^ w) l) :
+    -(((2 ^ w) ^ l.length : Nat) : Int) ≤ 2 * toInt (2 ^ w) l ∧ 2 * toInt (2 ^ w) l < (((2 ^ w) ^ l.length : Nat) : Int) := by
+  have hlt := val_lt _ l h
+  cases hneg : isNeg (2 ^ w) l with
+  | true =>
+    have := (isNeg_iff_pow w hw l h).1 hneg
+    rw [toInt_of_neg _ _ hneg]
+    omega
+  | false =>
+    have : ¬ ((2 ^ w) ^ l.length ≤ 2 * val (2 ^ w) l) := by
+      intro hc
+      have := (isNeg_iff_pow w hw l h).2 hc
+      rw [hneg] at this
+      exact Bool.noConfusion this
+    rw [toInt_of_nonneg _ _ hneg]
+    omega
+
+/-- ferret_abs_limbs: the magnitude is `|toInt v|` (which for the minimum value is `M/2`, still representable unsigned) -/
+theorem abs_spec (w : Nat) (hw : 0 < w) (v : List Nat) (hv : Wf (2 ^ w) v) :
+    (abs (2 ^ w) v).1.length = v.length ∧ Wf (2 ^ w) (abs (2 ^ w) v).1 ∧ (abs (2 ^ w) v).2 = isNeg (2 ^ w) v ∧
+    (val (2 ^ w) (abs (2 ^ w) v).1 : Int) = if isNeg (2 ^ w) v then - toInt (2 ^ w) v else toInt (2 ^ w) v := by
+  have hB1 : 1 < 2 ^ w := Nat.one_lt_two_pow (by omega)
+  have hlt := val_lt _ v hv
+  cases hneg : isNeg (2 ^ w) v with
+  | true =>
+    obtain ⟨hl, hwf⟩ := neg_length_wf (2 ^ w) hB1 v hv
+    have hge := (isNeg_iff_pow w hw v hv).1 hneg
+    have hnv := neg_val (2 ^ w) hB1 v hv
+    rw [Nat.mod_eq_of_lt (by omega)] at hnv
+    simp only [abs, hneg, if_true]
+    refine ⟨hl, hwf, trivial, ?_⟩
+    rw [toInt_of_neg _ _ hneg, hnv]
+    omega
+  | false =>
+    simp only [abs, hneg]
+    refine ⟨rfl, hv, rfl, ?_⟩
+    rw [toInt_of_nonneg _ _ hneg]
+    rfl
+
+/-- ferret_cmp_s_limbs decides the order of the two's complement values -/
+theorem cmpS_spec (B : Nat) (a b : List Nat) (hl : a.length = b.length)
+    (ha : Wf (B) a) (hb : Wf (B) b) :
+    cmpS (B) a b = compare (toInt (B) a) (toInt (B) b) := by
+  have hu := cmpU_spec (B) a b hl ha hb
+  unfold cmpS
+  cases hna : isNeg (B) a <;> cases hnb : isNeg (B) b
+  · -- both non-negative
+    simp only [bne_self_eq_false, Bool.false_eq_true, if_false]
+    rw [hu, toInt_of_nonneg _ _ hna, toInt_of_nonneg _ _ hnb]
+    rcases Nat.lt_trichotomy (val (B) a) (val (B) b) with h | h | h
+    · rw [Nat.compare_eq_lt.2 h, Int.compare_eq_lt.2 (by omega)]
+    · rw [Nat.compare_eq_eq.2 h, Int.compare_eq_eq.2 (by omega)]
+    · rw [Nat.compare_eq_gt.2 h, Int.compare_eq_gt.2 (by omega)]
+  · have h1 := toInt_nonneg B a hna
+    have h2 := toInt_lt_zero B b hb hnb
+    have : (false != true) = true := rfl
+    simp only [this, if_true, Bool.false_eq_true, if_false]
+    exact (Int.compare_eq_gt.2 (by omega)).symm
+  · have h1 := toInt_lt_zero B a ha hna
+    have h2 := toInt_nonneg B b hnb
+    have : (true != false) = true := rfl
+    simp only [this, if_true]
+    exact (Int.compare_eq_lt.2 (by omega)).symm
+  · simp only [bne_self_eq_false, Bool.false_eq_true, if_false]
+    rw [hu, toInt_of_neg _ _ hna, toInt_of_neg _ _ hnb, hl]
+    rcases Nat.lt_trichotomy (val (B) a) (val (B) b) with h | h | h
+    · rw [Nat.compare_eq_lt.2 h, Int.compare_eq_lt.2 (by omega)]
+    · rw [Nat.compare_eq_eq.2 h, Int.compare_eq_eq.2 (by omega)]
+    · rw [Nat.compare_eq_gt.2 h, Int.compare_eq_gt.2 (by omega)]
+
+/-! ### signed multiply / divide / modulo wrappers -/
+
+theorem neg_emod_emod (X M : Int) : (-(X % M)) % M = (-X) % M := by
+  have := Int.sub_emod 0 X M
+  rw [Int.zero_emod, Int.zero_sub, Int.zero_sub] at this
+  exact this.symm
+
+theorem nat_eq_toNat_of_cast_eq {v : Nat} {X : Int} (h : (v : Int) = X) : v = X.toNat := by
+  rw [← h, Int.toNat_natCast]
+
+theorem mulS_eq (B : Nat) (a b : List Nat) :
+    mulS B a b = if (abs B a).2 != (abs B b).2 then neg B (mul B (abs B a).1 (abs B b).1)
+      else mul B (abs B a).1 (abs B b).1 := rfl
+
+theorem mulLoop_wf (B : Nat) (hB : 0 < B) (as b out : List Nat) (h : as.length = out.length)
+    (hb : out.length ≤ b.length) : Wf B (mulLoop B as b out) := by
+  induction as generalizing out with
+  | nil =>
+    cases out with
+    | nil => simp [mulLoop, Wf]
+    | cons o os => simp at h
+  | cons x xs ih =>
+    cases out with
+    | nil => simp at h
+    | cons o os =>
+      have hl := mulRow_length B x b (o :: os) 0 hb
+      have hw := mulRow_wf B x hB b (o :: os) 0
+      unfold mulLoop
+      match hr : mulRow B x b (o :: os) 0 with
+      | [] => rw [hr] at hl; simp at hl
+      | r :: rs =>
+        rw [hr] at hl hw
+        have hrs : rs.length = os.length := by simpa using hl
+        have h2 : xs.length = rs.length := by simp at h; omega
+        have h3 : rs.length ≤ b.length := by simp at hb; omega
+        exact Wf.cons hw.head (ih rs h2 h3)
+
+theorem mul_wf (B : Nat) (hB : 0 < B) (a b : List Nat) (h : a.length = b.length) : Wf B (mul B a b) := by
+  unfold mul
+  exact mulLoop_wf B hB a b (zero a.length) (by rw [zero_length]) (by rw [zero_length]; omega)
+
+/-- ferret_iN_mul: two's complement product -/
+theorem mulS_val_int (w : Nat) (hw : 0 < w) (a b : List Nat) (hl : a.length = b.length)
+    (ha : Wf (2 ^ w) a) (hb : Wf (2 ^ w) b) :
+    (val (2 ^ w) (mulS (2 ^ w) a b) : Int)
+      = (toInt (2 ^ w) a * toInt (2 ^ w) b) % (((2 ^ w) ^ a.length : Nat) : Int) := by
+  have hB1 : 1 < 2 ^ w := Nat.one_lt_two_pow (by omega)
+  have hB0 : 0 < 2 ^ w := by omega
+  obtain ⟨hal, haw, han, hav⟩ := abs_spec w hw a ha
+  obtain ⟨hbl, hbw, hbn, hbv⟩ := abs_spec w hw b hb
+  have hml := mul_length (2 ^ w) _ _ (show (abs (2 ^ w) a).1.length = (abs (2 ^ w) b).1.length by omega)
+  have hmw := mul_wf (2 ^ w) hB0 _ _ (show (abs (2 ^ w) a).1.length = (abs (2 ^ w) b).1.length by omega)
+  have hmv := mul_val (2 ^ w) hB0 _ _ (show (abs (2 ^ w) a).1.length = (abs (2 ^ w) b).1.length by omega)
+  have hmvi : (val (2 ^ w) (mul (2 ^ w) (abs (2 ^ w) a).1 (abs (2 ^ w) b).1) : Int)
+      = ((val (2 ^ w) (abs (2 ^ w) a).1 : Int) * (val (2 ^ w) (abs (2 ^ w) b).1 : Int))
+          % (((2 ^ w) ^ a.length : Nat) : Int) := by
+    rw [hmv, Int.natCast_emod, Int.natCast_mul, hal]
+  have hnv := neg_val_int (2 ^ w) hB1 _ hmw
+  rw [hml, hal] at hnv
+  rw [mulS_eq, han, hbn]
+  rw [hav, hbv] at hmvi
+  cases hna : isNeg (2 ^ w) a <;> cases hnb : isNeg (2 ^ w) b <;>
+    simp only [hna, hnb, if_true, if_false, Bool.false_eq_true] at hmvi
+  · simpa using hmvi
+  · have : (false != true) = true := rfl
+    simp only [this, if_true]
+    rw [hnv, hmvi, neg_emod_emod, Int.mul_neg, Int.neg_neg]
+  · have : (true != false) = true := rfl
+    simp only [this, if_true]
+    rw [hnv, hmvi, neg_emod_emod, Int.neg_mul, Int.neg_neg]
+  · rw [Int.neg_mul_neg] at hmvi
+    simpa using hmvi
+
+theorem mulS_val (w : Nat) (hw : 0 < w) (a b : List Nat) (hl : a.length = b.length)
+    (ha : Wf (2 ^ w) a) (hb : Wf (2 ^ w) b) :
+    val (2 ^ w) (mulS (2 ^ w) a b)
+      = ((toInt (2 ^ w) a * toInt (2 ^ w) b) % (((2 ^ w) ^ a.length : Nat) : Int)).toNat :=
+  nat_eq_toNat_of_cast_eq (mulS_val_int w hw a b hl ha hb)
+
+theorem divS_eq (w : Nat) (a b : List Nat) :
+    divS w a b = if (abs (2 ^ w) a).2 != (abs (2 ^ w) b).2
+      then neg (2 ^ w) (divModU w (abs (2 ^ w) a).1 (abs (2 ^ w) b).1).2.1
+      else (divModU w (abs (2 ^ w) a).1 (abs (2 ^ w) b).1).2.1 := rfl
+
+theorem modS_eq (w : Nat) (a b : List Nat) :
+    modS w a b = if (abs (2 ^ w) a).2
+      then neg (2 ^ w) (divModU w (abs (2 ^ w) a).1 (abs (2 ^ w) b).1).2.2
+      else (divModU w (abs (2 ^ w) a).1 (abs (2 ^ w) b).1).2.2 := rfl
+
+/-- common facts about the unsigned division of the magnitudes inside divS / modS -/
+theorem divModU_abs (w : Nat) (hw : 0 < w) (a b : List Nat) (hl : a.length = b.length)
+    (ha : Wf (2 ^ w) a) (hb : Wf (2 ^ w) b) (hb0 : toInt (2 ^ w) b ≠ 0) :
+    let r := divModU w (abs (2 ^ w) a).1 (abs (2 ^ w) b).1
+    r.2.1.length = a.length ∧ r.2.2.length = a.length ∧ Wf (2 ^ w) r.2.1 ∧ Wf (2 ^ w) r.2.2 ∧
+    (val (2 ^ w) r.2.1 : Int) = Int.tdiv (val (2 ^ w) (abs (2 ^ w) a).1 : Int) (val (2 ^ w) (abs (2 ^ w) b).1 : Int) ∧
+    (val (2 ^ w) r.2.2 : Int) = Int.tmod (val (2 ^ w) (abs (2 ^ w) a).1 : Int) (val (2 ^ w) (abs (2 ^ w) b).1 : Int) := by
+  intro r
+  obtain ⟨hal, haw, _, _⟩ := abs_spec w hw a ha
+  obtain ⟨hbl, hbw, _, hbv⟩ := abs_spec w hw b hb
+  have hlen : (abs (2 ^ w) a).1.length = (abs (2 ^ w) b).1.length := by omega
+  have hbm0 : val (2 ^ w) (abs (2 ^ w) b).1 ≠ 0 := by
+    intro h0
+    rw [h0] at hbv
+    split at hbv <;> omega
+  obtain ⟨h1, h2, h3, h4⟩ := divModU_wf w hw _ _ hlen haw hbw
+  obtain ⟨_, hq, hr⟩ := divModU_spec w hw _ _ hlen haw hbw hbm0
+  refine ⟨by rw [← hal]; exact h1, by rw [← hal]; exact h2, h3, h4, ?_, ?_⟩
+  · show (val (2 ^ w) (divModU w (abs (2 ^ w) a).1 (abs (2 ^ w) b).1).2.1 : Int) = _
+    rw [hq, Int.ofNat_tdiv]
+  · show (val (2 ^ w) (divModU w (abs (2 ^ w) a).1 (abs (2 ^ w) b).1).2.2 : Int) = _
+    rw [hr, Int.ofNat_tmod]
+
+/-- ferret_iN_div: truncating division, reduced modulo 2^(n*w) (MIN / -1 wraps to MIN) -/
+theorem divS_val_int (w : Nat) (hw : 0 < w) (a b : List Nat) (hl : a.length = b.length)
+    (ha : Wf (2 ^ w) a) (hb : Wf (2 ^ w) b) (hb0 : toInt (2 ^ w) b ≠ 0) :
+    (val (2 ^ w) (divS w a b) : Int)
+      = (Int.tdiv (toInt (2 ^ w) a) (toInt (2 ^ w) b)) % (((2 ^ w) ^ a.length : Nat) : Int) := by
+  have hB1 : 1 < 2 ^ w := Nat.one_lt_two_pow (by omega)
+  obtain ⟨_, _, han, hav⟩ := abs_spec w hw a ha
+  obtain ⟨_, _, hbn, hbv⟩ := abs_spec w hw b hb
+  obtain ⟨hql, _, hqw, _, hqv, _⟩ := divModU_abs w hw a b hl ha hb hb0
+  have hqlt := val_lt _ _ hqw
+  rw [hql] at hqlt
+  have hnv := neg_val_int (2 ^ w) hB1 _ hqw
+  rw [hql] at hnv
+  rw [divS_eq, han, hbn]
+  rw [hav, hbv] at hqv
+  generalize (divModU w (abs (2 ^ w) a).1 (abs (2 ^ w) b).1).2.1 = q at *
+  cases hna : isNeg (2 ^ w) a <;> cases hnb : isNeg (2 ^ w) b <;>
+    simp only [hna, hnb, if_true, if_false, Bool.false_eq_true] at hqv
+  · simp only [bne_self_eq_false, Bool.false_eq_true, if_false]
+    rw [← hqv]
+    exact (Int.emod_eq_of_lt (by omega) (by omega)).symm
+  · have : (false != true) = true := rfl
+    simp only [this, if_true]
+    rw [hnv, hqv, Int.tdiv_neg, Int.neg_neg]
+  · have : (true != false) = true := rfl
+    simp only [this, if_true]
+    rw [hnv, hqv, Int.neg_tdiv, Int.neg_neg]
+  · simp only [bne_self_eq_false, Bool.false_eq_true, if_false]
+    rw [Int.neg_tdiv, Int.tdiv_neg, Int.neg_neg] at hqv
+    rw [← hqv]
+    exact (Int.emod_eq_of_lt (by omega) (by omega)).symm
+
+theorem divS_val (w : Nat) (hw : 0 < w) (a b : List Nat) (hl : a.length = b.length)
+    (ha : Wf (2 ^ w) a) (hb : Wf (2 ^ w) b) (hb0 : toInt (2 ^ w) b ≠ 0) :
+    val (2 ^ w) (divS w a b)
+      = ((Int.tdiv (toInt (2 ^ w) a) (toInt (2 ^ w) b)) % (((2 ^ w) ^ a.length : Nat) : Int)).toNat :=
+  nat_eq_toNat_of_cast_eq (divS_val_int w hw a b hl ha hb hb0)
+
+/-- ferret_iN_mod: truncating remainder (sign of the dividend), reduced modulo 2^(n*w) -/
+theorem modS_val_int (w : Nat) (hw : 0 < w) (a b : List Nat) (hl : a.length = b.length)
+    (ha : Wf (2 ^ w) a) (hb : Wf (2 ^ w) b) (hb0 : toInt (2 ^ w) b ≠ 0) :
+    (val (2 ^ w) (modS w a b) : Int)
+      = (Int.tmod (toInt (2 ^ w) a) (toInt (2 ^ w) b)) % (((2 ^ w) ^ a.length : Nat) : Int) := by
+  have hB1 : 1 < 2 ^ w := Nat.one_lt_two_pow (by omega)
+  obtain ⟨_, _, han, hav⟩ := abs_spec w hw a ha
+  obtain ⟨_, _, hbn, hbv⟩ := abs_spec w hw b hb
+  obtain ⟨_, hrl, _, hrw, _, hrv⟩ := divModU_abs w hw a b hl ha hb hb0
+  have hrlt := val_lt _ _ hrw
+  rw [hrl] at hrlt
+  have hnv := neg_val_int (2 ^ w) hB1 _ hrw
+  rw [hrl] at hnv
+  rw [modS_eq, han]
+  rw [hav, hbv] at hrv
+  generalize (divModU w (abs (2 ^ w) a).1 (abs (2 ^ w) b).1).2.2 = r at *
+  cases hna : isNeg (2 ^ w) a <;> cases hnb : isNeg (2 ^ w) b <;>
+    simp only [hna, hnb, if_true, if_false, Bool.false_eq_true] at hrv
+  · simp only [Bool.false_eq_true, if_false]
+    rw [← hrv]
+    exact (Int.emod_eq_of_lt (by omega) (by omega)).symm
+  · simp only [Bool.false_eq_true, if_false]
+    rw [Int.tmod_neg] at hrv
+    rw [← hrv]
+    exact (Int.emod_eq_of_lt (by omega) (by omega)).symm
+  · simp only [if_true]
+    rw [hnv, hrv, Int.neg_tmod, Int.neg_neg]
+  · simp only [if_true]
+    rw [hnv, hrv, Int.neg_tmod, Int.tmod_neg, Int.neg_neg]
+
+theorem modS_val (w : Nat) (hw : 0 < w) (a b : List Nat) (hl : a.length = b.length)
+    (ha : Wf (2 ^ w) a) (hb : Wf (2 ^ w) b) (hb0 : toInt (2 ^ w) b ≠ 0) :
+    val (2 ^ w) (modS w a b)
+      = ((Int.tmod (toInt (2 ^ w) a) (toInt (2 ^ w) b)) % (((2 ^ w) ^ a.length : Nat) : Int)).toNat :=
+  nat_eq_toNat_of_cast_eq (modS_val_int w hw a b hl ha hb hb0)
+
+/-! ### exponentiation: one-bit right shift, parity, square-and-multiply -/
+
+theorem shr1_limb (w : Nat) (hw : 0 < w) (v v' : Nat) (hv : v < 2 ^ w) :
+    (v / 2) ||| ((v' * 2 ^ (w - 1)) % 2 ^ w) = v / 2 + 2 ^ (w - 1) * (v' % 2)
+      ∧ v / 2 + 2 ^ (w - 1) * (v' % 2) < 2 ^ w := by
+  obtain ⟨H, hH, hB, hH'⟩ := two_pow_split w hw
+  have e1 : (v' * 2 ^ (w - 1)) % 2 ^ w = 2 ^ (w - 1) * (v' % 2) := by
+    rw [hB, hH', Nat.mul_comm v' H, Nat.mul_comm 2 H, Nat.mul_mod_mul_left]
+  have h2 : v / 2 < 2 ^ (w - 1) := by rw [hH']; omega
+  rw [e1, lor_eq_add' (k := w - 1) (Nat.mul_mod_right _ _) h2]
+  refine ⟨Nat.add_comm _ _, ?_⟩
+  rw [hH'] at h2 ⊢
+  rw [hB]
+  have : v' % 2 < 2 := Nat.mod_lt _ (by omega)
+  have : H * (v' % 2) ≤ H * 1 := Nat.mul_le_mul_left _ (by omega)
+  omega
+
+theorem shr1_length (w : Nat) (l : List Nat) : (shr1 w l).length = l.length := by
+  induction l with
+  | nil => rfl
+  | cons v vs ih =>
+    cases vs with
+    | nil => rfl
+    | cons v' vs => simp only [shr1, List.length_cons] at ih ⊢; rw [ih]
+
+theorem shr1_wf (w : Nat) (hw : 0 < w) (l : List Nat) (h : Wf (2 ^ w) l) : Wf (2 ^ w) (shr1 w l) := by
+  induction l with
+  | nil => exact h
+  | cons v vs ih =>
+    have hv := h.head
+    cases vs with
+    | nil =>
+      simp only [shr1]
+      exact Wf.cons (by omega) (fun _ hx => by simp at hx)
+    | cons v' vs =>
+      simp only [shr1]
+      obtain ⟨e1, e2⟩ := shr1_limb w hw v v' hv
+      exact Wf.cons (e1 ▸ e2) (ih h.tail)
+
+/-- ferret_shr1_limbs halves the value -/
+theorem shr1_val (w : Nat) (hw : 0 < w) (l : List Nat) (h : Wf (2 ^ w) l) :
+    val (2 ^ w) (shr1 w l) = val (2 ^ w) l / 2 := by
+  induction l with
+  | nil => simp [shr1, val]
+  | cons v vs ih =>
+    have hv := h.head
+    cases vs with
+    | nil => simp [shr1, val]
+    | cons v' vs =>
+      obtain ⟨e1, _⟩ := shr1_limb w hw v v' hv
+      have ih' := ih h.tail
+      simp only [shr1, val_cons] at ih' ⊢
+      rw [e1, ih']
+      obtain ⟨H, hH, hB, hH'⟩ := two_pow_split w hw
+      rw [hH', hB]
+      generalize val (2 * H) vs = R
+      -- (v + 2H(v' + 2H R))/2 = v/2 + H (v' + 2H R);  (v' + 2H R)/2 = v'/2 + H R
+      have a1 : (v + 2 * H * (v' + 2 * H * R)) / 2 = v / 2 + H * (v' + 2 * H * R) := by
+        rw [Nat.mul_assoc 2 H, Nat.add_mul_div_left _ _ (by omega : 0 < 2)]
+      have a2 : (v' + 2 * H * R) / 2 = v' / 2 + H * R := by
+        rw [Nat.mul_assoc 2 H, Nat.add_mul_div_left _ _ (by omega : 0 < 2)]
+      rw [a1, a2]
+      have a3 : H * (v' + 2 * H * R) = H * (v' % 2) + 2 * H * (v' / 2 + H * R) := by
+        have := Nat.div_add_mod v' 2
+        have e : H * v' = H * (2 * (v' / 2) + v' % 2) := by rw [this]
+        rw [Nat.mul_add] at e
+        rw [Nat.mul_add, Nat.mul_add (2 * H), e, Nat.mul_left_comm H 2, Nat.mul_assoc 2 H (v' / 2),
+          Nat.mul_left_comm H (2 * H)]
+        omega
+      rw [a3]
+      omega
+
+/-- the low bit of the low limb is the parity of the value (even base) -/
+theorem limb0_parity (w : Nat) (hw : 0 < w) (l : List Nat) : limb l 0 % 2 = val (2 ^ w) l % 2 := by
+  obtain ⟨H, hH, hB, hH'⟩ := two_pow_split w hw
+  cases l with
+  | nil => simp [limb_nil, val]
+  | cons x xs =>
+    rw [limb_cons_zero, val_cons, hB, Nat.mul_assoc, Nat.add_mul_mod_self_left]
+
+theorem mul_pow_mod (x y k M : Nat) : (x % M * (y % M) ^ k) % M = (x * y ^ k) % M := by
+  calc (x % M * (y % M) ^ k) % M
+      = ((x % M) % M * ((y % M) ^ k % M)) % M := Nat.mul_mod ..
+    _ = (x % M * (y ^ k % M)) % M := by rw [Nat.mod_mod, ← Nat.pow_mod]
+    _ = (x * y ^ k) % M := (Nat.mul_mod ..).symm
+
+theorem pow_halve (b E : Nat) : b ^ E = (b * b) ^ (E / 2) * b ^ (E % 2) := by
+  have h := Nat.div_add_mod E 2
+  conv => lhs; rw [← h]
+  rw [Nat.pow_add, Nat.pow_mul, Nat.pow_two]
+
+/-- square-and-multiply loop, for any limb multiplication that is correct modulo `B^n` -/
+theorem powLoop_spec (mulf : List Nat → List Nat → List Nat) (w : Nat) (hw : 0 < w) (n : Nat)
+    (hmul : ∀ x y, x.length = n → y.length = n → Wf (2 ^ w) x → Wf (2 ^ w) y →
+      (mulf x y).length = n ∧ Wf (2 ^ w) (mulf x y) ∧
+      val (2 ^ w) (mulf x y) = (val (2 ^ w) x * val (2 ^ w) y) % (2 ^ w) ^ n)
+    (fuel : Nat) (result base e : List Nat) (hr : result.length = n) (hb : base.length = n)
+    (hrw : Wf (2 ^ w) result) (hbw : Wf (2 ^ w) base) (hew : Wf (2 ^ w) e)
+    (hfuel : val (2 ^ w) e < 2 ^ fuel) :
+    (powLoop mulf w fuel result base e).length = n ∧ Wf (2 ^ w) (powLoop mulf w fuel result base e) ∧
+    val (2 ^ w) (powLoop mulf w fuel result base e)
+      = (val (2 ^ w) result * val (2 ^ w) base ^ val (2 ^ w) e) % (2 ^ w) ^ n := by
+  have hrlt : val (2 ^ w) result < (2 ^ w) ^ n := hr ▸ val_lt _ _ hrw
+  induction fuel generalizing result base e with
+  | zero =>
+    have he0 : val (2 ^ w) e = 0 := by simpa using hfuel
+    simp only [powLoop]
+    refine ⟨hr, hrw, ?_⟩
+    rw [he0, Nat.pow_zero, Nat.mul_one, Nat.mod_eq_of_lt hrlt]
+  | succ fuel ih =>
+    simp only [powLoop]
+    cases hz : isZero e with
+    | true =>
+      have he0 := (isZero_iff (2 ^ w) (Nat.two_pow_pos w) e).1 hz
+      simp only [if_true]
+      refine ⟨hr, hrw, ?_⟩
+      rw [he0, Nat.pow_zero, Nat.mul_one, Nat.mod_eq_of_lt hrlt]
+    | false =>
+      simp only [Bool.false_eq_true, if_false]
+      obtain ⟨hsl, hsw, hsv⟩ := hmul base base hb hb hbw hbw
+      have he' := shr1_val w hw e hew
+      have hew' := shr1_wf w hw e hew
+      have hpar := limb0_parity w hw e
+      have hfuel' : val (2 ^ w) (shr1 w e) < 2 ^ fuel := by
+        rw [he']; rw [Nat.pow_succ] at hfuel; omega
+      have hE := pow_halve (val (2 ^ w) base) (val (2 ^ w) e)
+      rcases Nat.mod_two_eq_zero_or_one (val (2 ^ w) e) with hp | hp
+      · have hc : ¬ (limb e 0 % 2 = 1) := by omega
+        simp only [hc, if_false]
+        obtain ⟨h1, h2, h3⟩ := ih result (mulf base base) (shr1 w e) hr hsl hrw hsw hew' hfuel' hrlt
+        refine ⟨h1, h2, ?_⟩
+        rw [h3, hsv, he', hE, hp, Nat.pow_zero, Nat.mul_one]
+        conv => lhs; rw [← Nat.mod_eq_of_lt hrlt]
+        exact mul_pow_mod _ _ _ _
+      · have hc : limb e 0 % 2 = 1 := by omega
+        simp only [hc, if_true]
+        obtain ⟨hml, hmw, hmv⟩ := hmul result base hr hb hrw hbw
+        have hmlt : val (2 ^ w) (mulf result base) < (2 ^ w) ^ n := hml ▸ val_lt _ _ hmw
+        obtain ⟨h1, h2, h3⟩ := ih (mulf result base) (mulf base base) (shr1 w e) hml hsl hmw hsw hew' hfuel' hmlt
+        refine ⟨h1, h2, ?_⟩
+        rw [h3, hsv, hmv, he', hE, hp, Nat.pow_one, mul_pow_mod]
+        congr 1
+        rw [Nat.mul_assoc, Nat.mul_comm (val (2 ^ w) base)]
+
+theorem val_one (B n : Nat) (hn : 0 < n) : val B (one n) = 1 := by
+  cases n with
+  | zero => omega
+  | succ n => simp [one, val_cons, val_zero]
+
+theorem one_length (n : Nat) : (one n).length = n := by
+  cases n with
+  | zero => rfl
+  | succ n => simp [one, zero_length]
+
+theorem one_wf (B n : Nat) (hB : 1 < B) : Wf B (one n) := by
+  cases n with
+  | zero => intro x hx; simp [one] at hx
+  | succ n => exact Wf.cons hB (zero_wf B n (by omega))
+
+/-- ferret_uN_pow: modular power by square-and-multiply -/
+theorem powU_val (w : Nat) (hw : 0 < w) (base e : List Nat) (hbw : Wf (2 ^ w) base) (hew : Wf (2 ^ w) e) :
+    val (2 ^ w) (powU w base e) = (val (2 ^ w) base ^ val (2 ^ w) e) % (2 ^ w) ^ base.length := by
+  have hB1 : 1 < 2 ^ w := Nat.one_lt_two_pow (by omega)
+  have hfuel : val (2 ^ w) e < 2 ^ (e.length * w) := by
+    have := val_lt _ _ hew
+    rwa [← Nat.pow_mul, Nat.mul_comm w] at this
+  obtain ⟨_, _, h3⟩ := powLoop_spec (mul (2 ^ w)) w hw base.length
+    (fun x y hx hy _ _ => ⟨by rw [mul_length _ _ _ (by omega), hx], mul_wf _ (by omega) _ _ (by omega),
+      by rw [mul_val _ (by omega) _ _ (by omega), hx]⟩)
+    (e.length * w) (one base.length) base e (one_length _) rfl (one_wf _ _ hB1) hbw hew hfuel
+  unfold powU
+  rw [h3]
+  cases hn : base.length with
+  | zero =>
+    simp [Nat.mod_one]
+  | succ n =>
+    rw [val_one _ _ (by omega), Nat.one_mul]
+
+/-! ### signed power, zero divisors, exact (non-wrapping) signed results -/
+
+theorem mulS_length_wf (w : Nat) (hw : 0 < w) (a b : List Nat) (hl : a.length = b.length)
+    (ha : Wf (2 ^ w) a) (hb : Wf (2 ^ w) b) :
+    (mulS (2 ^ w) a b).length = a.length ∧ Wf (2 ^ w) (mulS (2 ^ w) a b) := by
+  have hB1 : 1 < 2 ^ w := Nat.one_lt_two_pow (by omega)
+  obtain ⟨hal, haw, _, _⟩ := abs_spec w hw a ha
+  obtain ⟨hbl, hbw, _, _⟩ := abs_spec w hw b hb
+  have hlen : (abs (2 ^ w) a).1.length = (abs (2 ^ w) b).1.length := by omega
+  have hml := mul_length (2 ^ w) _ _ hlen
+  have hmw := mul_wf (2 ^ w) (by omega) _ _ hlen
+  obtain ⟨hnl, hnw⟩ := neg_length_wf (2 ^ w) hB1 _ hmw
+  rw [mulS_eq]
+  split
+  · exact ⟨by rw [hnl, hml, hal], hnw⟩
+  · exact ⟨by rw [hml, hal], hmw⟩
+
+/-- at the level of unsigned values the signed multiply is the same modular product -/
+theorem mulS_val_nat (w : Nat) (hw : 0 < w) (a b : List Nat) (hl : a.length = b.length)
+    (ha : Wf (2 ^ w) a) (hb : Wf (2 ^ w) b) :
+    val (2 ^ w) (mulS (2 ^ w) a b) = (val (2 ^ w) a * val (2 ^ w) b) % (2 ^ w) ^ a.length := by
+  have h := mulS_val_int w hw a b hl ha hb
+  have e1 := toInt_emod (2 ^ w) a ha
+  have e2 := toInt_emod (2 ^ w) b hb
+  rw [← hl] at e2
+  rw [Int.mul_emod, e1, e2, ← Int.natCast_mul, ← Int.natCast_emod] at h
+  exact Int.ofNat.inj h
+
+/-- ferret_iN_pow: negative exponent gives 0; otherwise the modular power (as an unsigned residue) -/
+theorem powS_val (w : Nat) (hw : 0 < w) (base e : List Nat) (hbw : Wf (2 ^ w) base) (hew : Wf (2 ^ w) e) :
+    val (2 ^ w) (powS w base e) =
+      if isNeg (2 ^ w) e then 0 else (val (2 ^ w) base ^ val (2 ^ w) e) % (2 ^ w) ^ base.length := by
+  have hB1 : 1 < 2 ^ w := Nat.one_lt_two_pow (by omega)
+  unfold powS
+  split
+  · exact val_zero _ _
+  · have hfuel : val (2 ^ w) e < 2 ^ (e.length * w) := by
+      have := val_lt _ _ hew
+      rwa [← Nat.pow_mul, Nat.mul_comm w] at this
+    obtain ⟨_, _, h3⟩ := powLoop_spec (mulS (2 ^ w)) w hw base.length
+      (fun x y hx hy hxw hyw => by
+        obtain ⟨h1, h2⟩ := mulS_length_wf w hw x y (by omega) hxw hyw
+        exact ⟨by rw [h1, hx], h2, by rw [mulS_val_nat w hw x y (by omega) hxw hyw, hx]⟩)
+      (e.length * w) (one base.length) base e (one_length _) rfl (one_wf _ _ hB1) hbw hew hfuel
+    rw [h3]
+    cases hn : base.length with
+    | zero => simp [Nat.mod_one]
+    | succ n => rw [val_one _ _ (by omega), Nat.one_mul]
+
+theorem val_neg_zero (B : Nat) (hB : 1 < B) (n : Nat) : val B (neg B (zero n)) = 0 := by
+  rw [neg_val B hB _ (zero_wf B n (by omega)), val_zero, Nat.sub_zero, Nat.mod_self]
+
+/-- ferret_iN_div by zero yields 0 -/
+theorem divS_zero (w : Nat) (hw : 0 < w) (a b : List Nat) (hb : Wf (2 ^ w) b) (hb0 : toInt (2 ^ w) b = 0) :
+    val (2 ^ w) (divS w a b) = 0 := by
+  have hB1 : 1 < 2 ^ w := Nat.one_lt_two_pow (by omega)
+  have hnb : isNeg (2 ^ w) b = false := by
+    cases h : isNeg (2 ^ w) b with
+    | false => rfl
+    | true => have := toInt_lt_zero _ b hb h; omega
+  have hv : val (2 ^ w) b = 0 := by
+    rw [toInt_of_nonneg _ _ hnb] at hb0; omega
+  have habs : abs (2 ^ w) b = (b, false) := by simp [abs, hnb]
+  rw [divS_eq, habs, divModU_zero w _ b hv]
+  split
+  · exact val_neg_zero _ hB1 _
+  · exact val_zero _ _
+
+/-- ferret_iN_mod by zero yields 0 -/
+theorem modS_zero (w : Nat) (hw : 0 < w) (a b : List Nat) (hb : Wf (2 ^ w) b) (hb0 : toInt (2 ^ w) b = 0) :
+    val (2 ^ w) (modS w a b) = 0 := by
+  have hB1 : 1 < 2 ^ w := Nat.one_lt_two_pow (by omega)
+  have hnb : isNeg (2 ^ w) b = false := by
+    cases h : isNeg (2 ^ w) b with
+    | false => rfl
+    | true => have := toInt_lt_zero _ b hb h; omega
+  have hv : val (2 ^ w) b = 0 := by
+    rw [toInt_of_nonneg _ _ hnb] at hb0; omega
+  have habs : abs (2 ^ w) b = (b, false) := by simp [abs, hnb]
+  rw [modS_eq, habs, divModU_zero w _ b hv]
+  split
+  · exact val_neg_zero _ hB1 _
+  · exact val_zero _ _
+
+theorem int_eq_of_emod_eq (x y M : Int) (h : x % M = y % M) (h1 : -M < x - y) (h2 : x - y < M) : x = y := by
+  have h0 := Int.emod_eq_emod_iff_emod_sub_eq_zero.1 h
+  by_cases hn : x - y < 0
+  · have e : (x - y + M * 1) % M = (x - y) % M := Int.add_mul_emod_self_left _ _ _
+    rw [h0, Int.emod_eq_of_lt (by omega) (by omega)] at e
+    omega
+  · rw [Int.emod_eq_of_lt (by omega) h2] at h0
+    omega
+
+/-- a residue that fits the signed range determines the signed value -/
+theorem toInt_of_val_int (w : Nat) (hw : 0 < w) (l : List Nat) (hl : Wf (2 ^ w) l) (X : Int)
+    (h : (val (2 ^ w) l : Int) = X % (((2 ^ w) ^ l.length : Nat) : Int))
+    (hlo : -(((2 ^ w) ^ l.length : Nat) : Int) ≤ 2 * X) (hhi : 2 * X < (((2 ^ w) ^ l.length : Nat) : Int)) :
+    toInt (2 ^ w) l = X := by
+  obtain ⟨b1, b2⟩ := toInt_bounds w hw l hl
+  have e := toInt_emod (2 ^ w) l hl
+  rw [h] at e
+  exact int_eq_of_emod_eq _ _ _ e (by omega) (by omega)
+
+theorem divS_length_wf (w : Nat) (hw : 0 < w) (a b : List Nat) (hl : a.length = b.length)
+    (ha : Wf (2 ^ w) a) (hb : Wf (2 ^ w) b) :
+    (divS w a b).length = a.length ∧ Wf (2 ^ w) (divS w a b) := by
+  have hB1 : 1 < 2 ^ w := Nat.one_lt_two_pow (by omega)
+  obtain ⟨hal, haw, _, _⟩ := abs_spec w hw a ha
+  obtain ⟨hbl, hbw, _, _⟩ := abs_spec w hw b hb
+  obtain ⟨h1, _, h3, _⟩ := divModU_wf w hw _ _ (show (abs (2 ^ w) a).1.length = (abs (2 ^ w) b).1.length by omega) haw hbw
+  obtain ⟨hnl, hnw⟩ := neg_length_wf (2 ^ w) hB1 _ h3
+  rw [divS_eq]
+  split
+  · exact ⟨by rw [hnl, h1, hal], hnw⟩
+  · exact ⟨by rw [h1, hal], h3⟩
+
+theorem modS_length_wf (w : Nat) (hw : 0 < w) (a b : List Nat) (hl : a.length = b.length)
+    (ha : Wf (2 ^ w) a) (hb : Wf (2 ^ w) b) :
+    (modS w a b).length = a.length ∧ Wf (2 ^ w) (modS w a b) := by
+  have hB1 : 1 < 2 ^ w := Nat.one_lt_two_pow (by omega)
+  obtain ⟨hal, haw, _, _⟩ := abs_spec w hw a ha
+  obtain ⟨hbl, hbw, _, _⟩ := abs_spec w hw b hb
+  obtain ⟨_, h2, _, h4⟩ := divModU_wf w hw _ _ (show (abs (2 ^ w) a).1.length = (abs (2 ^ w) b).1.length by omega) haw hbw
+  obtain ⟨hnl, hnw⟩ := neg_length_wf (2 ^ w) hB1 _ h4
+  rw [modS_eq]
+  split
+  · exact ⟨by rw [hnl, h2, hal], hnw⟩
+  · exact ⟨by rw [h2, hal], h4⟩
+
+/-- ferret_iN_mul without overflow is the exact product -/
+theorem mulS_toInt (w : Nat) (hw : 0 < w) (a b : List Nat) (hl : a.length = b.length)
+    (ha : Wf (2 ^ w) a) (hb : Wf (2 ^ w) b)
+    (hlo : -(((2 ^ w) ^ a.length : Nat) : Int) ≤ 2 * (toInt (2 ^ w) a * toInt (2 ^ w) b))
+    (hhi : 2 * (toInt (2 ^ w) a * toInt (2 ^ w) b) < (((2 ^ w) ^ a.length : Nat) : Int)) :
+    toInt (2 ^ w) (mulS (2 ^ w) a b) = toInt (2 ^ w) a * toInt (2 ^ w) b := by
+  obtain ⟨h1, h2⟩ := mulS_length_wf w hw a b hl ha hb
+  apply toInt_of_val_int w hw _ h2
+  · rw [h1]; exact mulS_val_int w hw a b hl ha hb
+  · rw [h1]; exact hlo
+  · rw [h1]; exact hhi
+
+/-- ferret_iN_mod is exactly the truncating remainder (never overflows) -/
+theorem modS_toInt (w : Nat) (hw : 0 < w) (a b : List Nat) (hl : a.length = b.length)
+    (ha : Wf (2 ^ w) a) (hb : Wf (2 ^ w) b) (hb0 : toInt (2 ^ w) b ≠ 0) :
+    toInt (2 ^ w) (modS w a b) = Int.tmod (toInt (2 ^ w) a) (toInt (2 ^ w) b) := by
+  obtain ⟨h1, h2⟩ := modS_length_wf w hw a b hl ha hb
+  obtain ⟨b1, b2⟩ := toInt_bounds w hw a ha
+  have hna := Int.natAbs_tmod (toInt (2 ^ w) a) (toInt (2 ^ w) b)
+  have hle : (toInt (2 ^ w) a).natAbs % (toInt (2 ^ w) b).natAbs ≤ (toInt (2 ^ w) a).natAbs := Nat.mod_le _ _
+  have hnn : 0 ≤ toInt (2 ^ w) a → 0 ≤ Int.tmod (toInt (2 ^ w) a) (toInt (2 ^ w) b) := Int.tmod_nonneg _
+  have hnp : toInt (2 ^ w) a ≤ 0 → Int.tmod (toInt (2 ^ w) a) (toInt (2 ^ w) b) ≤ 0 := by
+    intro h
+    have := Int.tmod_nonneg (toInt (2 ^ w) b) (show 0 ≤ -toInt (2 ^ w) a by omega)
+    rw [Int.neg_tmod] at this
+    omega
+  apply toInt_of_val_int w hw _ h2
+  · rw [h1]; exact modS_val_int w hw a b hl ha hb hb0
+  · rw [h1]; omega
+  · rw [h1]; omega
+
+/-- ferret_iN_div is exactly the truncating quotient except for MIN / -1 -/
+theorem divS_toInt (w : Nat) (hw : 0 < w) (a b : List Nat) (hl : a.length = b.length)
+    (ha : Wf (2 ^ w) a) (hb : Wf (2 ^ w) b) (hb0 : toInt (2 ^ w) b ≠ 0)
+    (hov : ¬ (2 * toInt (2 ^ w) a = -(((2 ^ w) ^ a.length : Nat) : Int) ∧ toInt (2 ^ w) b = -1)) :
+    toInt (2 ^ w) (divS w a b) = Int.tdiv (toInt (2 ^ w) a) (toInt (2 ^ w) b) := by
+  obtain ⟨h1, h2⟩ := divS_length_wf w hw a b hl ha hb
+  obtain ⟨b1, b2⟩ := toInt_bounds w hw a ha
+  have hna := Int.natAbs_tdiv (toInt (2 ^ w) a) (toInt (2 ^ w) b)
+  have hle := Int.natAbs_tdiv_le_natAbs (toInt (2 ^ w) a) (toInt (2 ^ w) b)
+  apply toInt_of_val_int w hw _ h2
+  · rw [h1]; exact divS_val_int w hw a b hl ha hb hb0
+  · rw [h1]; omega
+  · rw [h1]
+    generalize (((2 ^ w) ^ a.length : Nat) : Int) = M at *
+    generalize hta : toInt (2 ^ w) a = ta at *
+    generalize htb : toInt (2 ^ w) b = tb at *
+    apply Classical.byContradiction
+    intro hc
+    -- then |t| = |ta| = M/2, so ta = -M/2 and |tb| = 1
+    have hM : 2 * ta = -M := by omega
+    have hq : ta.natAbs.div tb.natAbs = ta.natAbs := by omega
+    have hpos : 0 < ta.natAbs := by omega
+    have hb1 : tb.natAbs = 1 := by
+      rcases Nat.lt_or_ge tb.natAbs 2 with h | h
+      · omega
+      · have := Nat.div_lt_self hpos h
+        have e : ta.natAbs.div tb.natAbs = ta.natAbs / tb.natAbs := rfl
+        omega
+    have : tb = 1 := by omega
+    subst this
+    rw [Int.tdiv_one] at hc
+    omega
+
+end FerretVerif.Limbs
